@@ -82,6 +82,9 @@ def run_impl_case(case):
                             bad.append(dict(kind='float_value', what='special float text constructed as %r' % v, loader=L.__name__))
                         elif short == 'float' and s.replace('_', '').lower().lstrip('+-') == '.inf' and (v > 0) != (not s.startswith('-')):
                             bad.append(dict(kind='float_value', what='signed infinity constructed as %r' % v, loader=L.__name__))
+                        elif short == 'timestamp' and spec11.yaml11_timestamp(s) is not None and (type(v) is not type(spec11.yaml11_timestamp(s)) or v != spec11.yaml11_timestamp(s)
+                                                                                                  or (isinstance(v, datetime.datetime) and (v.utcoffset() != spec11.yaml11_timestamp(s).utcoffset() or v.microsecond != spec11.yaml11_timestamp(s).microsecond))):
+                            bad.append(dict(kind='timestamp_value', what='timestamp text constructed as %r, the rules give %r' % (v, spec11.yaml11_timestamp(s)), loader=L.__name__))
                         elif short == 'bool' and v != (s.lower() in ('yes', 'true', 'on')):
                             bad.append(dict(kind='bool_value', what='bool text constructed as %r' % v, loader=L.__name__))
                     except yaml.YAMLError as e:
